@@ -256,12 +256,29 @@ impl DoubleEndedIterator for Faulty {
 }
 impl ExactSizeIterator for Faulty {}
 
+/// Element whose `Clone` is caller-supplied code that crashes at the CLONE_CRASH-th call.
+struct PClone(u8);
+thread_local! {
+    static CLONE_CALLS: core::cell::Cell<usize> = core::cell::Cell::new(0);
+    static CLONE_CRASH: core::cell::Cell<usize> = core::cell::Cell::new(usize::MAX);
+}
+impl Clone for PClone {
+    fn clone(&self) -> PClone {
+        let n = CLONE_CALLS.with(|c| c.get());
+        CLONE_CALLS.with(|c| c.set(n + 1));
+        if n == CLONE_CRASH.with(|c| c.get()) {
+            panic!("injected crash in caller-supplied Clone");
+        }
+        PClone(self.0)
+    }
+}
+
 fn inv_u8(t: &TooDee<u8>) -> bool {
     let (c, r) = (t.num_cols(), t.num_rows());
     c.checked_mul(r) == Some(t.data().len()) && (c == 0) == (r == 0) && t.rows().len() == r
 }
 
-/// op: 0 insert_row, 1 insert_col, 2 remove_row (drain leaked), 3 remove_col (drain leaked).
+/// op: 0 insert_row, 1 insert_col, 2 remove_row (drain leaked), 3 remove_col (drain leaked), 4 clone_from.
 /// draws: cols, rows, idx. For the inserts every crash point k and the claimed lengths
 /// {true, true-1, true+1, usize::MAX} are tried (a handful of concrete runs of the real code around
 /// the solver's witness); each run catches the panic and then checks the invariant.
@@ -271,6 +288,26 @@ pub fn b_state(op: u8) {
     let idx = nd::usize_();
     nd::assume(cols <= 8 && rows <= 8 && (cols == 0) == (rows == 0));
     let mk = || if cols == 0 { TooDee::<u8>::default() } else { TooDee::from_vec(cols, rows, grid(cols, rows)) };
+    if op == 4 {
+        // Clone::clone_from(&mut self, source) with a Clone that crashes at its k-th call, over a handful of source shapes
+        let pc = |c: usize, r: usize| -> TooDee<PClone> {
+            if c == 0 { TooDee::default() } else { TooDee::from_vec(c, r, (0..c * r).map(|i| PClone(i as u8)).collect()) }
+        };
+        for (sc, sr) in [(0usize, 0usize), (1, 1), (2, 3), (3, 2), (4, 4), (cols, rows), (rows, cols)] {
+            for k in 0..=(sc * sr) {
+                let mut t = pc(cols, rows);
+                let s = pc(sc, sr);
+                CLONE_CALLS.with(|c| c.set(0));
+                CLONE_CRASH.with(|c| c.set(k));
+                let _ = std::panic::catch_unwind(std::panic::AssertUnwindSafe(|| t.clone_from(&s)));
+                CLONE_CRASH.with(|c| c.set(usize::MAX));
+                let (c, r) = (t.num_cols(), t.num_rows());
+                assert!(c.checked_mul(r) == Some(t.data().len()) && (c == 0) == (r == 0), "ORACLE: shape invariant broken after a caught panic in clone_from");
+            }
+        }
+        end_reached!();
+        return;
+    }
     if op >= 2 {
         let mut t = mk();
         let r = std::panic::catch_unwind(std::panic::AssertUnwindSafe(|| {
